@@ -434,6 +434,11 @@ func (h *c38History) compareRead(op *vmodel.Op, ra, r0 *vmodel.Result) {
 		}
 	}
 	fa, f0 := objFields(ra.Obj), objFields(r0.Obj)
+	if fa["version-id"] != f0["version-id"] {
+		// the returned object describes another version: every other field follows from that
+		h.add(pre+"version-id", fmt.Sprintf("%s: version-id of the returned object via S3 client %s, directly %s", op, fa["version-id"], f0["version-id"]), false, "")
+		return
+	}
 	for _, f := range vkit.SortedKeys(f0) {
 		if f == "meta" {
 			for _, mf := range metaDiffs(fa[f], f0[f]) {
@@ -547,7 +552,17 @@ func (h *c38History) afterWrite(op *vmodel.Op, m *vmodel.Model) {
 		sb := readKey(h.ctx, h.st.b, bk[0], bk[1])
 		where := bk[0] + "/" + bk[1]
 		seenField := map[string]bool{}
-		for _, d := range cmpKeyState(where, s0, sb, mapB, false) {
+		wdiffs := cmpKeyState(where, s0, sb, mapB, false)
+		if op.Kind == vmodel.OpTransition {
+			// a transition that created a new version: every other difference follows from it
+			for _, d := range wdiffs {
+				if d.Field == "version-set" {
+					wdiffs = []fdiff{d}
+					break
+				}
+			}
+		}
+		for _, d := range wdiffs {
 			if seenField[d.Field] {
 				continue
 			}
@@ -661,6 +676,18 @@ func (h *c38History) probes(rng *vkit.Rand, m *vmodel.Model, final bool) {
 			if !ok {
 				continue
 			}
+			if va.ReadErr != v0.ReadErr {
+				// an unreadable version through the client: the per-key comparison after
+				// each write names the failing call; only classify here
+				if strings.Contains(va.ReadErr, "head tags != GetObjectTagging") && !strings.Contains(va.ReadErr, "get:") {
+					h.add("s3client-diverges:head:tags", fmt.Sprintf("snapshot through the S3 client: HeadObject tags differ from GetObjectTagging for %s/%s@%s", x0.Name, v0.Key, v0.VersionID), false, "")
+				} else {
+					h.r.Count("snapshot_versions_unreadable_through_client(covered by per-key comparison)", 1)
+				}
+				va.ReadErr, v0.ReadErr = "", ""
+				va.ContentHash, v0.ContentHash = "", ""
+				va.Tags, v0.Tags = "", ""
+			}
 			for _, d := range compareVersionFields(x0.Name, va, v0, true) {
 				api := "head"
 				switch d.Field {
@@ -668,8 +695,6 @@ func (h *c38History) probes(rng *vkit.Rand, m *vmodel.Model, final bool) {
 					api = "get"
 				case "size", "etag", "storage-class":
 					api = "list-versions"
-				case "readable":
-					api = "snapshot"
 				}
 				h.add(fmt.Sprintf("s3client-diverges:%s:%s", api, d.Field), "snapshot through the S3 client vs the storage: "+d.String(), false, "")
 			}
@@ -704,6 +729,16 @@ func (u *uploadListFallback) ListMultipartUploads(ctx context.Context, b storage
 		return u.direct.ListMultipartUploads(ctx, b, o)
 	}
 	return res, err
+}
+
+// ListParts: vmodel.Snapshot asks for 10000 parts per page; the S3 protocol
+// layer only accepts max-parts <= 1000 (400 otherwise), so the page size is
+// clamped for the snapshot through the client.
+func (u *uploadListFallback) ListParts(ctx context.Context, b storage.BucketName, k storage.ObjectKey, id storage.UploadId, o storage.ListPartsOptions) (*storage.ListPartsResult, error) {
+	if o.MaxParts > 1000 {
+		o.MaxParts = 1000
+	}
+	return u.Storage.ListParts(ctx, b, k, id, o)
 }
 
 // excluded operations (answered with ErrNotImplemented by design)
